@@ -32,10 +32,11 @@ class ASTWalker:
     def __walk(self, node: MypyFile | ClassDef | Decorator | FuncDef | AssignmentStmt, visited_nodes: set) -> None:
         # We ignore decorators and just take their inner functions, since we can get decorator information from the
         # function node too
+        if isinstance(node, OverloadedFuncDef):
+            # Properties with a setter and overloads without implementation have no "impl", we take the first item instead
+            node = node.impl if node.impl is not None else node.items[0]
         if isinstance(node, Decorator):
             node = node.func
-        elif isinstance(node, OverloadedFuncDef):
-            node = node.impl
 
         if node in visited_nodes:  # pragma: no cover
             raise AssertionError("Node visited twice")
